@@ -61,21 +61,22 @@ func NewValidatorSet(vals []*Validator) *ValidatorSet {
 
 // TODO: mind the overflow when times and votingPower shares too large.
 func (valSet *ValidatorSet) IncrementAccum(times int64) {
-	// Add VotingPower * times to each validator and order into heap.
-	validatorsHeap := gcmn.NewHeap()
-	for _, val := range valSet.Validators {
-		val.Accum += int64(val.VotingPower) * int64(times) // TODO: mind overflow
-		validatorsHeap.Push(val, accumComparable(val.Accum))
-	}
-
-	// Decrement the validator with most accum, times times.
-	for i := 0; i < int(times); i++ {
-		mostest := validatorsHeap.Peek().(*Validator)
-		if i == int(times-1) {
-			valSet.proposer = mostest
+	// Run the rounds one at a time. Adding VotingPower*times up front and only then
+	// decrementing the validator with most accum `times` times selects other proposers
+	// than `times` calls of IncrementAccum(1), so a node that skipped rounds would
+	// disagree with a node that went through every round.
+	for i := int64(0); i < times; i++ {
+		// Add VotingPower to each validator and order into heap.
+		validatorsHeap := gcmn.NewHeap()
+		for _, val := range valSet.Validators {
+			val.Accum += int64(val.VotingPower) // TODO: mind overflow
+			validatorsHeap.Push(val, accumComparable(val.Accum))
 		}
+
+		// Decrement the validator with most accum: it is the proposer of this round.
+		mostest := validatorsHeap.Peek().(*Validator)
 		mostest.Accum -= int64(valSet.TotalVotingPower())
-		validatorsHeap.Update(mostest, accumComparable(mostest.Accum))
+		valSet.proposer = mostest
 	}
 }
 
